@@ -372,6 +372,30 @@ impl Pool {
                 }
             }
         }
+        if rng.chance(1, 14) {
+            // result-directed: both denominators powers of two, odd numerators whose sum or difference is a power of two
+            // again (or zero, or a small odd multiple of one) - the unreduced numerator and denominator of x + y / x - y
+            // are then large powers of two and everything cancels in the normalisation
+            let e1 = rng.below(self.k as u64 + 1) as u32;
+            let e2 = if rng.chance(3, 4) { e1 } else { rng.below(e1 as u64 + 1) as u32 };
+            // a / 2^e1 + c / 2^e2 = target / 2^e1 with target = 2^t, 3 * 2^t or 0 (e2 <= e1)
+            let t = rng.below(self.k as u64 + 1) as u32;
+            let target = (1i128 << t) * *rng.pick(&[1i128, 1, 1, 3, 0]);
+            let mut a = 1 + 2 * Self::uniform(rng, (self.b - 1) / 2);
+            if rng.chance(1, 2) {
+                a = -a;
+            }
+            let rest = target - a;
+            if rest % (1i128 << (e1 - e2)) == 0 {
+                let c = rest >> (e1 - e2);
+                let s = Self::sign(rng, 1);
+                // x + y hits the target with (a, c); x - y with (a, -c)
+                let q = if rng.chance(1, 2) { [a, 1i128 << e1, c, 1i128 << e2] } else { [a, 1i128 << e1, -c * s, (1i128 << e2) * s] };
+                if q.iter().all(|v| v.abs() <= self.b) && c != 0 {
+                    return (q, "dyadic_power_of_two_result");
+                }
+            }
+        }
         let (mut q, shape): ([i128; 4], &'static str) = match rng.weighted(&[22, 22, 12, 8, 8, 10, 8, 10]) {
             0 => ([self.val(rng), self.nonzero(rng), self.val(rng), self.nonzero(rng)], "independent"),
             1 => {
@@ -859,6 +883,91 @@ fn check_pair<T: Int>(raw: [i128; 4], shape: &'static str, rep: &mut Report, tal
 }
 
 // ------------------------------------------------------------------------------------------------
+// equality and hashing need no arithmetic: for Rational<i32> they are judged on parts up to 2^30 (the magnitudes the
+// property states), far beyond the box in which the *operators* of a 32-bit rational stay exact. Pairs: the same value in
+// two representations, independent values, and "wrap twins" whose cross products a*d and c*b agree modulo 2^32 without
+// being equal.
+
+fn check_eq_wide_i32(rng: &mut Rng, rep: &mut Report, tally: &mut Tally) {
+    const B: i128 = 1 << 30;
+    let wide = |rng: &mut Rng| -> i128 {
+        let m = match rng.below(6) {
+            0 => *rng.pick(&[1i128 << 16, (1 << 16) + 1, (1 << 16) - 1, 46_340, 46_341, 46_349, 1 << 30, (1 << 30) - 1, 1 << 24, 65_537, 1 << 20]),
+            1 => 1i128 << rng.below(31),
+            2 => 1 + rng.below(1 << 16) as i128,
+            _ => 1 + rng.below(B as u64) as i128,
+        };
+        if rng.chance(1, 2) {
+            -m
+        } else {
+            m
+        }
+    };
+    let (a, b) = (wide(rng), wide(rng));
+    let (c, d, shape) = match rng.below(4) {
+        0 => {
+            // the same value, scaled
+            let g = ogcd(a, b);
+            let (n, dd) = (a / g, b / g);
+            let kmax = (B / n.abs().max(dd.abs())).max(1);
+            let k = (1 + rng.below(kmax.min(1 << 20) as u64) as i128) * if rng.chance(1, 2) { -1 } else { 1 };
+            (n * k, dd * k, "eq_wide_same_value")
+        }
+        1 => {
+            // wrap twin: same numerator with s trailing zero bits, denominators 2^(32 - s) * t apart
+            let s_bits = 3 + rng.below(18) as u32;
+            let a2 = ((a.abs() >> s_bits).max(1) | 1) << s_bits;
+            let step = 1i128 << (32 - s_bits);
+            let d2 = b + step * (1 + rng.below(3) as i128) * if b > 0 { -1 } else { 1 };
+            if a2 <= B && d2 != 0 && d2.abs() <= B {
+                // (a2 / b vs a2 / d2)
+                return check_eq_wide_quad([a2, b, a2, d2], "eq_wide_wrap_twins", rep, tally);
+            }
+            (wide(rng), wide(rng), "eq_wide_independent")
+        }
+        _ => (wide(rng), wide(rng), "eq_wide_independent"),
+    };
+    check_eq_wide_quad([a, b, c, d], shape, rep, tally)
+}
+
+fn check_eq_wide_quad(raw: [i128; 4], shape: &'static str, rep: &mut Report, tally: &mut Tally) {
+    let [a, b, c, d] = raw;
+    tally.bump("eq_wide_pairs_i32");
+    tally.bump(shape);
+    let want_eq = a * d == c * b;
+    let replay = vec!["--eq-wide-case".to_string(), format!("{},{},{},{}", a, b, c, d)];
+    let r = catch(|| {
+        let x = lib!(Rational::<i32>::new(a as i32, b as i32));
+        let y = lib!(Rational::<i32>::new(c as i32, d as i32));
+        let eq = lib!(x == y);
+        let ne = lib!(x != y);
+        let eq_rev = lib!(y == x);
+        (eq, ne, eq_rev, hash_of(&x), hash_of(&y), x, y)
+    });
+    let detail = |what: &str| Json::obj().set("type", "i32").set("check", "eq_wide").set("what", what).set("x_raw", format!("{}/{}", a, b)).set("y_raw", format!("{}/{}", c, d)).set("shape", shape);
+    match r {
+        Ok((eq, ne, eq_rev, hx, hy, x, y)) => {
+            if eq != want_eq || ne == want_eq || eq_rev != want_eq {
+                rep.violation(
+                    "eq:i32".to_string(),
+                    detail("== / != on two constructed values disagrees with numeric equality").set("eq", eq).set("ne", ne).set("eq_reversed", eq_rev).set("numerically_equal", want_eq).set("x", format!("{}/{}", x.a, x.b)).set("y", format!("{}/{}", y.a, y.b)),
+                    replay,
+                );
+            } else if want_eq && hx != hy {
+                rep.violation("hash:i32".to_string(), detail("equal values hash differently"), replay);
+            }
+        }
+        Err(p) => {
+            if p.in_lib {
+                rep.violation("panic:eq:i32".to_string(), detail("constructing / comparing two values panicked (equality needs no arithmetic on the parts)").set("panic", p.msg.as_str()).set("at", format!("{}:{}", p.file, p.line)), replay);
+            } else {
+                rep.inconclusive(format!("harness panic at {}:{}: {}", p.file, p.line, p.msg));
+            }
+        }
+    }
+}
+
+// ------------------------------------------------------------------------------------------------
 
 #[derive(Clone, Copy, Debug, PartialEq)]
 enum Ty {
@@ -922,6 +1031,15 @@ fn main() {
          (raw input not in lowest terms or gcd of an unreduced +,-,*,/ result > 1) or a raw denominator / divisor numerator was negative",
     );
 
+    if let Some(case) = a.opt("eq-wide-case") {
+        let v: Vec<i128> = case.split(',').map(|s| s.trim().parse().expect("integer")).collect();
+        let mut rep = Report::new();
+        let mut tally = Tally::default();
+        check_eq_wide_quad([v[0], v[1], v[2], v[3]], "replay", &mut rep, &mut tally);
+        tally.flush(&mut rep);
+        report.merge(rep);
+        eng.finish(report);
+    }
     if let Some(case) = a.opt("case") {
         let (tn, rest) = case.split_once(':').expect("case = <type>:<a>,<b>,<c>,<d>");
         let ty = match tn {
@@ -1005,6 +1123,9 @@ fn main() {
                         rep.sample_cap = 1;
                         tally.bump("pairs_sampled");
                         job.ty.check(raw, shape, rep, &mut tally, false);
+                        if job.ty == Ty::I32 {
+                            check_eq_wide_i32(&mut rng, rep, &mut tally);
+                        }
                     }
                 }
             }
